@@ -13,7 +13,7 @@ RULE = ("every strict, reserved and weak keyword of the Rust reference (editions
         "graphql-client's table), four spellings of each that turn into the keyword only after snake_casing (`Type`, `TYPE`, `_type`, "
         "`type_`; quick: without normalization / skip variants) and 24 case-style names x name position {response field, alias, variable, input-object field, "
         "@oneOf member, enum value, self-referential (boxed) input-object field} x option state {normalization none, normalization rust, skip_serializing_none (field-like positions)}: one tiny (schema, document) per combination, compiled by rustc "
-        "and probed with payloads / assignments whose keys are the exact GraphQL names. quick = a seeded third of the matrix, "
+        "and probed with payloads / assignments whose keys are the exact GraphQL names (alias position: also an alias that differs from its field's own name in case style / underscores only - the alias is the key, the schema name is not accepted for it). quick = a seeded third of the matrix, "
         "thorough = the whole matrix (exhaustive). `true`, `false`, `null` are not legal enum values in GraphQL and are skipped "
         "at that position. Non-trivial = every case; distinct by (name, position, normalization)")
 
@@ -50,6 +50,17 @@ def make(name, pos, rust, cid, rng):
                    ["field", "o5", "obj", None, [["field", name, "inner", None, [["field", name, fname, None, None]]]]],
                    ["field", name, fname, None, None]]
             payload = {"obj": {name: "ALPHA"}, "o2": {name: "beta"}, "o3": {name: "2020"}, "o4": {name: "id1"}, "o5": {name: {name: "s"}}, name: 5}
+            # an alias that differs from its field's own name in case style / underscores only (`Type: type`, `userName: user_name`)
+            # is still an alias: the alias is the key, the schema name is not accepted in its place (C11-r10m1)
+            taken = {f["name"] for f in s.types["Obj"]["fields"]} | {name}
+            twin = next((c for c in (names.snake(name), names.camel(name), name.lower(), name.upper(), "_" + name, name + "_")
+                         if c and c not in taken and (c[0].isalpha() or c[0] == "_") and not c.startswith("__")), None)
+            if twin:
+                s.types["Obj"]["fields"].append({"name": twin, "type": T("String"), "args": [], "deprecated": None})
+                sel.append(["field", "o6", "obj", None, [["field", name, twin, None, None]]])
+                payload["o6"] = {name: "t"}
+                vecs.append({"id": "r1", "kind": "resp", "target": "Q", "input": dict(payload, o6={twin: "t"}),
+                             "expect": {"ok": True, "reser": dict(payload, o6={name: None})}, "label": "schema-name-in-place-of-near-alias"})
         doc = {"operations": [{"kind": "query", "name": "Q", "vars": [], "sel": sel}], "fragments": []}
         vecs.append({"id": "r0", "kind": "resp", "target": "Q", "input": payload, "expect": {"ok": True, "reser": payload}, "label": "wire-key"})
         # the key spelt as the Rust identifier would be must NOT be accepted in place of the GraphQL name (non-null not used: check via loss)
